@@ -79,6 +79,8 @@ def tasks(tier, seed):
         out.append({"fn": "simple_real", "kwargs": {"bits": b}, "label": f"simple/real/bits={b}"})
     out.append({"fn": "dtype_width", "kwargs": {}, "label": "dtype/width"})
     out.append({"fn": "model_dtype", "kwargs": {}, "label": "simple/model_dtype"})
+    for mname in ("simple_adc", "sar_adc"):
+        out.append({"fn": "model_reuse", "kwargs": {"model_name": mname}, "label": f"model_reuse/{mname}", "caps": {"max_seconds": 300, "solver_timeout_ms": 60000}})
     sar_b = [4, 8, 12, 16, 24] if tier == "quick" else [4, 6, 8, 10, 12, 16, 24, 32, 48, 64]
     for b in sar_b:
         out.append({"fn": "sar_real", "kwargs": {"bits": b, "mono": b <= (8 if tier == "quick" else 12)}, "label": f"sar/real/bits={b}",
@@ -251,6 +253,39 @@ def model_dtype():
     vx.prove("C16/model/bounds", vx.all_of([(e >= 0) & (e <= 2**bb - 1) for e in img.elems()]))
 
 
+def model_reuse(model_name):
+    """The three converter models on a detector that still holds the image of an earlier, lower-resolution conversion (the resolution
+    was raised through the attribute in between): the new image has the type and the codes of the new resolution."""
+    mods = _mods()
+    import importlib
+
+    det = make_ccd(1, 2)
+    b0, b1 = vx.integer("bits_before"), vx.integer("bits_after")
+    vx.assume((b0 >= 4) & (b0 <= 64) & (b1 >= 4) & (b1 <= 64), "ADC resolutions in the documented range")
+    k0, k1 = vx.integer("class_before"), vx.integer("class_after")  # storage class: 8 / 16 / 32 / 64 bit images
+    reps = (8, 12, 24, 40)
+    vx.assume((k0 >= 0) & (k0 <= 3) & (k1 >= 0) & (k1 <= 3), "one resolution per storage class")
+    bb0, bb1 = reps[core.concretize_int(k0)], reps[core.concretize_int(k1)]
+    vx.assume((b0 == bb0) & (b1 == bb1), "representative resolutions 8, 12, 24, 40")
+    det.characteristics._adc_voltage_range = (0.0, 4.0)
+    x = vx.real("x")
+    vx.assume((x >= 0) & (x <= 8), "voltages around the range")
+    with Patch() as p:
+        p.numpy(ADC_MODS[0], ADC_MODS[1], ADC_MODS[2], ADC_MODS[3], "pyxel.data_structure.array", "pyxel.data_structure.image", "pyxel.data_structure.signal")
+        f = {"simple_adc": mods[0].simple_adc, "sar_adc": mods[1].sar_adc}[model_name]
+        det.characteristics._adc_bit_resolution = bb0
+        det.signal.array = symnp.SymArray.from_elems([x, x + 1], (1, 2), np.float64)
+        f(det)
+        det.characteristics.adc_bit_resolution = bb1
+        det.signal.array = symnp.SymArray.from_elems([x, x + 4], (1, 2), np.float64)
+        f(det)
+        img = det.image.array
+    lab = f"{model_name}/{bb0}->{bb1}"
+    vx.prove(f"C16/model/reuse/dtype_wide_enough/{lab}", (img.dtype.kind == "u") & (8 * img.dtype.itemsize >= bb1))
+    vx.prove(f"C16/model/reuse/full_scale/{lab}", img.elems()[1] == 2**bb1 - 1)  # x + 4 >= vmax
+    vx.prove(f"C16/model/reuse/monotone_bounds/{lab}", (img.elems()[0] <= img.elems()[1]) & (img.elems()[0] >= 0))
+
+
 def sar_real(bits, mono):
     sar = _mods()[1]
     x, y, vmax = vx.real("x"), vx.real("y"), vx.real("vmax")
@@ -403,6 +438,26 @@ def replay(oid, kwargs, model, data):
         if clause == "zero":
             return (x <= 0 and cx != 0), det
         return False, det
+    if fn == "model_reuse":
+        import importlib
+
+        from pyxel.models.readout_electronics import sar_adc, simple_adc
+
+        reps = (8, 12, 24, 40)
+        bb0, bb1 = reps[int(model.get("class_before", 0)) % 4], reps[int(model.get("class_after", 1)) % 4]
+        x = _f(model.get("x"))
+        f = {"simple_adc": simple_adc, "sar_adc": sar_adc}[kwargs["model_name"]]
+        det = make_ccd(1, 2)
+        det.characteristics._adc_voltage_range = (0.0, 4.0)
+        det.characteristics._adc_bit_resolution = bb0
+        det.signal.array = np.array([[x, x + 1]], dtype=float)
+        f(det)
+        det.characteristics.adc_bit_resolution = bb1
+        det.signal.array = np.array([[x, x + 4]], dtype=float)
+        f(det)
+        img = det.image.array
+        bad = img.dtype.kind != "u" or 8 * img.dtype.itemsize < bb1 or int(img[0, 1]) != 2**bb1 - 1 or int(img[0, 0]) > int(img[0, 1])
+        return bool(bad), {"resolution_before": bb0, "resolution_after": bb1, "image_dtype": str(img.dtype), "image": img.tolist(), "full_scale": 2**bb1 - 1}
     if fn == "sar_noise_fp":
         bits, vmax, x = kwargs["bits"], kwargs["vmax"], _f(model.get("x"))
         sdt = np.dtype(kwargs.get("sigdtype", "float64"))
